@@ -22,23 +22,37 @@ def declare(spec):
     spec.handlers['tornado.gen:sleep'] = h_tornado_sleep
     from pyvc.tys import BOOL
     spec.ghost('excl', BOOL)     # task-local: the running operation owns the exclusive slot (C10)
-    PROT = ("same_field('Watcher.processes', 'Watcher._status', 'Watcher.numprocesses', 'Watcher.singleton', "
-            "'Watcher.respawn', 'Watcher.max_age', 'Watcher.warmup_delay', 'Watcher.graceful_timeout', "
-            "'Watcher.stop_signal', 'Watcher.stop_children', 'Watcher.hooks', 'Watcher.ignore_hook_failure', "
-            "'Watcher.evpub_socket', 'Watcher.arbiter', 'Watcher.on_demand', 'Watcher.max_retry', "
-            "'Watcher.name', 'Watcher.priority', 'Watcher.autostart', 'Watcher.stream_redirector', "
-            "'Arbiter.watchers', 'Arbiter._watchers_names', 'Arbiter._stopping', 'Arbiter.warmup_delay')")
-    spec.assumptions['R-EXCL'] = (
-        'while a task owns the exclusive slot (ghost excl), no other task writes the protected watcher / '
-        'arbiter fields: they are written only by synchronized operations (C10 frame scans) and '
-        'synchronized operations are refused while the slot is held (C10 wrapper contract)')
+    FIELDS = ['Watcher.processes', 'Watcher._status', 'Watcher.numprocesses', 'Watcher.singleton',
+              'Watcher.respawn', 'Watcher.max_age', 'Watcher.warmup_delay', 'Watcher.graceful_timeout',
+              'Watcher.stop_signal', 'Watcher.stop_children', 'Watcher.hooks', 'Watcher.ignore_hook_failure',
+              'Watcher.evpub_socket', 'Watcher.arbiter', 'Watcher.on_demand', 'Watcher.max_retry',
+              'Watcher.name', 'Watcher.priority', 'Watcher.autostart', 'Watcher.stream_redirector',
+              'Watcher.cmd', 'Watcher._found_wids', 'Watcher.max_age_variance', 'Arbiter.watchers',
+              'Arbiter._watchers_names', 'Arbiter._stopping', 'Arbiter.warmup_delay', 'Arbiter.socket_event']
+    GHOSTS = ['spawnlog', 'spevlog', 'reaplog', 'startlog']
+
+    def prot(exc=(), child=True):
+        """protected state unchanged, except the listed fields / ghosts"""
+        fs = [f for f in FIELDS if f not in exc]
+        parts = ["same_field(%s)" % ', '.join(repr(f) for f in fs)]
+        parts += ['%s == old(%s)' % (g, g) for g in GHOSTS if g not in exc]
+        if child and 'K_child' not in exc:
+            parts.append('forall(INT, lambda p: implies(p in K_child, p in old(K_child)))')
+        return ' and '.join(parts)
+    spec.consts['$prot'] = prot
+    PROT = prot()
+    def keep(g):
+        return ("(length(%s) >= length(old(%s)) and forall(INT, lambda i: implies(0 <= i and "
+                "i < length(old(%s)), %s[i] == old(%s)[i])))" % (g, g, g, g, g))
+    LOGS = ' and '.join(keep(g) for g in ('hooklog', 'evlog', 'siglog'))
+    spec.consts['$LOGS'] = LOGS
     spec.consts['$PROT'] = PROT
     spec.relies['kill'] = Rely(
         'kill',
         stable=['process.stopping', 'process.klog', 'process.naps', 'process.alive_seen', 'Process.pid',
                 'process.closed', 'excl', 'Process.wid', 'Process.started'],
         facts=['implies(not (process.pid in old(K_alive)), not (process.pid in K_alive))',
-               'wf_procs_pid(self)', 'implies(excl, %s)' % PROT],
+               'wf_procs_pid(self)', 'implies(excl, %s)' % PROT, LOGS],
         note='suspension inside Watcher.kill_process(process): the instance that set process.stopping owns '
              'the per-process ghost fields until it clears the flag (every other kill_process(process) '
              'returns at the stopping test; frame-scan stopping-writers); a dead pid stays dead '
@@ -47,6 +61,6 @@ def declare(spec):
     spec.relies['held'] = Rely(
         'held',
         stable=['excl', 'Process.pid', 'Process.wid', 'Process.started'],
-        facts=['wf_procs_pid(self)', 'implies(excl, %s)' % PROT],
+        facts=['wf_procs_pid(self)', 'implies(excl, %s)' % PROT, LOGS],
         note='suspension of an operation that may own the slot: protected fields stable under excl; kernel, '
              'logs, clocks and per-process termination state may change')
